@@ -23,7 +23,10 @@ use std::time::{Duration, Instant};
 pub enum Failure { None, Logp { chain: u64, eval: u64 }, MathCtor { chain: u64 }, Init { chain: u64 }, Storage { chain: u64, record: u64 }, RecoverableOnly { chain: u64, period: u64 }, InitRecoverable { chain: u64, n: u64 }, InitAllRejected { chain: u64 },
     /// even chains: a recoverable error at every `period`-th evaluation below `x`; odd chains: at every `period`-th evaluation from `x` on
     /// (divergence counts that differ between chains AND between warmup and sampling)
-    Split { x: u64, period: u64 } }
+    Split { x: u64, period: u64 },
+    /// async Zarr backend whose chunk writes of the sampling-phase draw arrays fail (a storage failure that surfaces when the pending writes
+    /// are joined: at flush / finalisation)
+    AsyncStoreWrite }
 
 #[derive(Clone)]
 pub struct TModel { pub dim: usize, pub seed: u64, pub failure: Failure, pub slow_chain: Option<u64> }
@@ -130,10 +133,10 @@ impl ChainStorage for FailingChain {
 }
 
 #[derive(Clone, Debug)]
-pub struct Cfg { pub gen_seed: u64, pub gen_tier: String, pub preset: u8, pub seed: u64, pub sched: u64, pub num_chains: usize, pub num_cores: usize, pub num_tune: u64, pub num_draws: u64, pub dim: usize, pub script: Vec<(u8, u64)>, pub end_abort: bool, pub poll_finish: bool, pub failure: Failure }
+pub struct Cfg { pub gen_seed: u64, pub gen_tier: String, pub preset: u8, pub seed: u64, pub sched: u64, pub num_chains: usize, pub num_cores: usize, pub num_tune: u64, pub num_draws: u64, pub dim: usize, pub script: Vec<(u8, u64)>, pub end_abort: bool, pub poll_finish: bool, pub zero_poll: bool, pub failure: Failure }
 
 impl Cfg {
-    pub fn to_json(&self) -> serde_json::Value { json!({"gen_seed": self.gen_seed.to_string(), "gen_tier": self.gen_tier, "preset": self.preset, "seed": self.seed, "sched": self.sched, "num_chains": self.num_chains, "num_cores": self.num_cores, "num_tune": self.num_tune, "num_draws": self.num_draws, "dim": self.dim, "script": self.script, "end_abort": self.end_abort, "poll_finish": self.poll_finish, "failure": format!("{:?}", self.failure)}) }
+    pub fn to_json(&self) -> serde_json::Value { json!({"gen_seed": self.gen_seed.to_string(), "gen_tier": self.gen_tier, "preset": self.preset, "seed": self.seed, "sched": self.sched, "num_chains": self.num_chains, "num_cores": self.num_cores, "num_tune": self.num_tune, "num_draws": self.num_draws, "dim": self.dim, "script": self.script, "end_abort": self.end_abort, "poll_finish": self.poll_finish, "zero_poll": self.zero_poll, "failure": format!("{:?}", self.failure)}) }
 }
 
 /// run `$body` with `$s` bound to the settings of the configuration's preset (Diag NUTS, LowRank NUTS, Diag MCLMC)
@@ -150,6 +153,8 @@ macro_rules! with_settings {
 pub struct RunOut { pub fault_evals: u64, pub result: String, pub traces: Option<Vec<(BTreeMap<String, Vec<Cell>>, BTreeMap<String, Vec<Cell>>)>>, pub events: Vec<(u64, u8, u64)>, pub pause_obs: Vec<(Vec<usize>, Vec<usize>, Vec<usize>, usize, Vec<bool>)>, pub final_progress: Option<Vec<(usize, usize, usize, usize)>>, pub snapshots: Vec<Vec<Snap>>, pub hang: bool, pub api_errors: Vec<String> }
 
 static RUN_LOCK: std::sync::Mutex<()> = std::sync::Mutex::new(());
+/// number of injected storage write failures of the last run (Failure::AsyncStoreWrite)
+static STORE_FAILS: std::sync::Mutex<Option<Arc<AtomicU64>>> = std::sync::Mutex::new(None);
 
 /// drive one parallel run with the scripted commands (op, delay µs): 0 pause, 1 resume, 2 progress, 3 flush, 4 inspect
 type Maps = Vec<(BTreeMap<String, Vec<Cell>>, BTreeMap<String, Vec<Cell>>)>;
@@ -219,11 +224,14 @@ where S: Settings + 'static, SC: StorageConfig + 'static, <SC::Storage as TraceS
                 // make sure a paused sampler is resumed before waiting for completion
                 let _ = sampler.resume();
                 let start = Instant::now();
+                // non-blocking polling (`wait_timeout(0)` from an event loop) in some runs, a 50 ms wait in the others
+                let (wait, limit) = if cfg2.zero_poll { (Duration::ZERO, Duration::from_secs(15)) } else { (Duration::from_millis(50), Duration::from_secs(60)) };
                 loop {
-                    match sampler.wait_timeout(Duration::from_millis(50)) {
+                    if cfg2.zero_poll { std::thread::sleep(Duration::from_micros(200)); }
+                    match sampler.wait_timeout(wait) {
                         SamplerWaitResult::Trace(t) => { out.result = "trace".into(); out.traces = Some(to_traces(t)); break; }
                         SamplerWaitResult::Err(e, t) => { out.result = format!("wait_err:{e:#}"); out.traces = t.map(to_traces); break; }
-                        SamplerWaitResult::Timeout(mut s) => { if start.elapsed() > Duration::from_secs(60) { out.result = "timeout".into(); out.hang = true; let _ = s.abort(); break; }
+                        SamplerWaitResult::Timeout(mut s) => { if start.elapsed() > limit { out.result = "timeout".into(); out.hang = true; let _ = s.abort(); break; }
                             let pr = s.progress().ok();
                             if let Some(p) = &pr { if out.snapshots.len() < 64 { out.snapshots.push(snap(p)); } else { let k = out.snapshots.len() - 1; out.snapshots[k] = snap(p); } }
                             out.final_progress = pr.map(|p| p.iter().map(|c| (c.finished_draws, c.divergences, c.total_num_steps, c.total_draws)).collect()); sampler = s; }
@@ -254,7 +262,7 @@ pub fn gen_cfg(seed: u64, case: u64, tier: &str, mode: u8) -> Cfg {
     // evaluation index (initialisation, step-size search, every leapfrog of the first draws, the step-size re-initialisation)
     if mode == 3 && case >= 1_000_000 {
         return Cfg { gen_seed: seed, gen_tier: tier.to_string(), preset: 0, seed: (seed.wrapping_mul(2654435761) | 1), sched: 1, num_chains: 1, num_cores: 1,
-            num_tune: 12, num_draws: 3, dim: 2, script: vec![], end_abort: false, poll_finish: false, failure: Failure::Logp { chain: 0, eval: case - 1_000_000 } };
+            num_tune: 12, num_draws: 3, dim: 2, script: vec![], end_abort: false, poll_finish: false, zero_poll: false, failure: Failure::Logp { chain: 0, eval: case - 1_000_000 } };
     }
     let mut r = Sm::new(seed, "CTL", case * 10 + mode as u64);
     let num_chains = 1 + r.below(if tier == "thorough" { 8 } else { 5 }) as usize;
@@ -283,10 +291,17 @@ pub fn gen_cfg(seed: u64, case: u64, tier: &str, mode: u8) -> Cfg {
         num_chains = 4; num_cores = 1; num_tune = 20; num_draws = 10;
         script = if case == 3 { vec![(0, 0), (1, 0)] } else { vec![(0, 0), (0, 200), (1, 300)] };
     }
+    // corpus (C10): one high-dimensional model (any reduction that is split across the thread pool for long vectors would make the result
+    // depend on the number of workers), few draws, more workers than chains
+    let mut big_dim = None;
+    if mode == 0 && case == 5 { num_chains = 2; num_cores = 4; num_tune = 3; num_draws = 2; script = vec![]; big_dim = Some(70_000usize); }
+    // C13 storage failure of the async Zarr writer: whole chunks only (chunk size 3), so that the failing writes are still queued at the end
+    if mode == 3 && case % 8 == 7 { num_tune = 6; num_draws = 6; script = vec![]; }
     let total = num_tune + num_draws;
     let failure = if mode == 3 {
         let chain = r.below(num_chains as u64);
-        match case % 7 {
+        match case % 8 {
+            7 => Failure::AsyncStoreWrite,
             6 => Failure::InitAllRejected { chain },
             5 => Failure::InitRecoverable { chain: if r.coin() { chain } else { u64::MAX }, n: 1 + r.below(6) },
             0 => Failure::Logp { chain, eval: r.below(40 + 8 * total) },
@@ -300,7 +315,7 @@ pub fn gen_cfg(seed: u64, case: u64, tier: &str, mode: u8) -> Cfg {
     // has finished (commands after completion), then waited for or aborted
     let poll_finish = mode == 1 && case % 4 == 2;
     if poll_finish && num_draws < 10 { num_draws = 10; }
-    Cfg { gen_seed: seed, gen_tier: tier.to_string(), preset: match mode { 3 => 0, _ => (case % 3) as u8 }, seed: r.next() | 1, sched: r.next() | 1, num_chains, num_cores, num_tune, num_draws, dim: 2 + r.below(3) as usize, script, end_abort: match mode { 1 => case % 3 == 0 && case != 3, 3 => case % 2 == 0, _ => false }, poll_finish, failure }
+    Cfg { gen_seed: seed, gen_tier: tier.to_string(), preset: match mode { 3 => 0, _ if big_dim.is_some() => 0, _ => (case % 3) as u8 }, seed: r.next() | 1, sched: r.next() | 1, num_chains, num_cores, num_tune, num_draws, dim: { let d = 2 + r.below(3) as usize; big_dim.unwrap_or(d) }, script, end_abort: match mode { 1 => case % 3 == 0 && case != 3, 3 => case % 2 == 0, _ => false }, poll_finish, zero_poll: mode == 1 && case % 4 == 1, failure }
 }
 
 fn emit_chain_records(cases: &mut Cases, case: u64, cfg: &Cfg, events: &[(u64, u8, u64)]) {
@@ -316,6 +331,16 @@ fn emit_chain_records(cases: &mut Cases, case: u64, cfg: &Cfg, events: &[(u64, u
 pub fn check_case(cfg: &Cfg, mode: u8, case: u64, cases: &mut Cases, rep: &mut Report, prop: &str) {
     let out = match &cfg.failure {
         Failure::Storage { chain, record } => with_settings!(cfg, s => run(cfg, s, FailingConfig { chain: *chain, record: *record }, hashmap_maps)),
+        Failure::AsyncStoreWrite => {
+            let rt = tokio::runtime::Builder::new_multi_thread().worker_threads(3).enable_all().build().unwrap();
+            let fails = Arc::new(AtomicU64::new(0));
+            *STORE_FAILS.lock().unwrap() = Some(fails.clone());
+            let store = Arc::new(crate::c15::DelayStore { inner: Arc::new(zarrs::storage::store::MemoryStore::new()), delay: Duration::from_micros(300), fail_posterior_chunks: Some(fails) });
+            let astore = Arc::new(zarrs::storage::storage_adapter::sync_to_async::SyncToAsyncStorageAdapter::new(store, crate::c15::TokioSpawnBlocking));
+            let out = with_settings!(cfg, s => run(cfg, s, nuts_rs::ZarrAsyncConfig::new(rt.handle().clone(), astore).with_chunk_size(3), |_| vec![]));
+            drop(rt);
+            out
+        }
         // C10-C12: alternate the storage backend behind the parallel sampler (HashMap / Arrow)
         _ if mode != 3 && case % 2 == 1 => with_settings!(cfg, s => run(cfg, s, nuts_rs::ArrowConfig::default(), arrow_maps)),
         _ => with_settings!(cfg, s => run(cfg, s, HashMapConfig::new(), hashmap_maps)) };
@@ -329,7 +354,7 @@ pub fn check_case(cfg: &Cfg, mode: u8, case: u64, cases: &mut Cases, rep: &mut R
     let replay = json!({"kind": "ctl", "mode": mode, "case": case, "cfg": cfg.to_json()});
     if out.hang { rep.violation("ctl.hang", &format!("a call did not return / the sampler did not terminate ({})", out.result), replay.clone()); return; }
     if out.result.starts_with("panic") { rep.violation("ctl.panic", &format!("the calling thread panicked: {}", out.result), replay.clone()); return; }
-    let expect_err = matches!(cfg.failure, Failure::Logp { .. } | Failure::MathCtor { .. } | Failure::Init { .. } | Failure::Storage { .. } | Failure::InitAllRejected { .. });
+    let expect_err = matches!(cfg.failure, Failure::Logp { .. } | Failure::MathCtor { .. } | Failure::Init { .. } | Failure::Storage { .. } | Failure::InitAllRejected { .. } | Failure::AsyncStoreWrite);
     // the initialisation retry loop against Model/InitRetry.lean: (rejected start points, outcome of every later attempt) -> how the chain ended
     if let Some((nbad, last)) = match &cfg.failure { Failure::InitRecoverable { n, .. } => Some((*n, 0)), Failure::Init { .. } => Some((0, 1)), Failure::InitAllRejected { .. } => Some((0, 2)), _ => None } {
         let observed = if out.result.contains("Unrecoverable error during initialization") { Some(1) } else if out.result.contains("All initialization points failed") { Some(2) }
@@ -339,7 +364,8 @@ pub fn check_case(cfg: &Cfg, mode: u8, case: u64, cases: &mut Cases, rep: &mut R
     // was the failure actually reached? (a chain aborted early may never get there)
     // ... for a density fault: the failing evaluation index was reached by the faulty chain's density
     let fault_raised = matches!(cfg.failure, Failure::Logp { eval, .. } if out.fault_evals > eval);
-    let failed_task = out.events.iter().any(|e| e.1 == 6 && e.2 == 0) || fault_raised;
+    let store_failed = matches!(cfg.failure, Failure::AsyncStoreWrite) && STORE_FAILS.lock().unwrap().as_ref().map(|c| c.load(Ordering::SeqCst)).unwrap_or(0) > 0;
+    let failed_task = out.events.iter().any(|e| e.1 == 6 && e.2 == 0) || fault_raised || store_failed;
     if expect_err {
         let reported = out.result.starts_with("wait_err") || out.result.starts_with("abort_err") || out.result.starts_with("new_err");
         if failed_task && !reported { rep.violation("ctl.failure_not_reported", &format!("a chain failed ({:?}) but the sampler reported '{}'", cfg.failure, out.result), replay.clone()); }
